@@ -1,6 +1,7 @@
 import TensorModel.Proofs.Kernels
 import TensorModel.Proofs.MinMax
 import TensorModel.Proofs.CoreEq
+import TensorModel.Proofs.IterPaths
 /-!
   C06 — elementwise arithmetic is coordinate-wise, in operand order, layout-blind.
   Property theorems only; helper lemmas live in `TensorModel/Proofs/Kernels.lean`.
@@ -457,6 +458,53 @@ theorem engArithVV_refuses (st : St) (op : String) (a b : Dense) (o : Opts)
   · exact Or.inr (Or.inl h)
   · exact Or.inr (Or.inr (by simpa using h))
 
+/-! ## 4b. tensor and scalar, at engine level (`StdEng.<Op>Scalar`) -/
+
+/-- **Tensor on the left, scalar on the right, raw path, safe mode**: a fresh clone of the tensor whose cell `i` is
+    `op t[i] s`; the tensor, the scalar and every pre-existing buffer are untouched. -/
+theorem engArithScalar_safe_raw_left (st : St) (op : String) (t : Dense) (sc : ScalarArg)
+    (hnum : t.dt ∈ numberTypes) (hk : t.dt ∈ kernelTypes op) (hdt : t.dt = sc.dt) (hsrc : sc.src = none)
+    (hit : t.requiresIterator = false) (hs1 : sc.win.len = 1) (ht1 : t.win.len ≠ 1) (hmt : t.mask = none)
+    (hT : InBuf st t.win.buf t.win.off t.win.len) (hS : InBuf st sc.win.buf sc.win.off 1) :
+    ∃ out c s, engArithScalar st op numberTypes t sc true {} = .ok out ∧ out.ret = .fresh c ∧
+      c.ap = { t.ap with fin := true } ∧ c.win = ⟨st.heap.size, 0, t.win.len, t.win.len⟩ ∧
+      cell st sc.win.buf sc.win.off = some s ∧ out.st.mheap = st.mheap ∧
+      (∀ i, i < t.win.len → ∃ x, cell st t.win.buf (t.win.off + i) = some x ∧
+        cell out.st c.win.buf i = some (.app2 op x s)) ∧
+      (∀ b' k, b' < st.heap.size → cell out.st b' k = cell st b' k) := by
+  obtain ⟨st', h, hm, hv, hfr⟩ := engArithScalar_safe_raw_left' st op numberTypes t sc (by simpa using hnum)
+    (by simpa using hk) hdt hsrc hit hs1 ht1 hmt hT hS
+  refine ⟨_, _, _, h, rfl, rfl, rfl, cell_some_cellD (by simpa using hS.has 0 (by omega)), hm, ?_, hfr⟩
+  intro i hi
+  exact ⟨_, cell_some_cellD (hT.has i hi), hv i hi⟩
+
+/-- **Layout-blind and in operand order: a tensor that needs an iterator and a scalar on either side, safe mode.** The
+    result is a clone of the tensor in which every logical element - every cell the tensor's iterator addresses - is
+    `op t s` when the tensor is the left operand and `op s t` when the scalar is; the gaps of a view keep their value;
+    the tensor, the scalar and every other pre-existing buffer are untouched. -/
+theorem engArithScalar_safe_iter (st : St) (op : String) (t : Dense) (sc : ScalarArg) (left : Bool)
+    (hnum : t.dt ∈ numberTypes) (hk : t.dt ∈ kernelTypes op) (hdt : t.dt = sc.dt) (hsrc : sc.src = none)
+    (hit : t.requiresIterator = true) (hnsc : isScalar t.shape = false) (hs1 : sc.win.len = 1) (hmt : t.mask = none)
+    (hot : ∀ j ∈ t.offsets, 0 ≤ j ∧ j < (t.win.len : Int)) (hnd : t.offsets.Nodup)
+    (hT : InBuf st t.win.buf t.win.off t.win.len) (hS : InBuf st sc.win.buf sc.win.off 1) :
+    ∃ out c s, engArithScalar st op numberTypes t sc left {} = .ok out ∧ out.ret = .fresh c ∧
+      c.ap = { t.ap with fin := true } ∧ c.win = ⟨st.heap.size, 0, t.win.len, t.win.len⟩ ∧ c.offsets = t.offsets ∧
+      cell st sc.win.buf sc.win.off = some s ∧ out.st.mheap = st.mheap ∧
+      (∀ i ∈ t.offsets, ∃ x, cell st t.win.buf (t.win.off + i.toNat) = some x ∧
+        cell out.st c.win.buf i.toNat = some (if left then .app2 op x s else .app2 op s x)) ∧
+      (∀ m, m < t.win.len → (∀ i ∈ t.offsets, m ≠ i.toNat) →
+        cell out.st c.win.buf m = cell st t.win.buf (t.win.off + m)) ∧
+      (∀ b' k, b' < st.heap.size → cell out.st b' k = cell st b' k) := by
+  obtain ⟨st', h, hm, hv, hrest, hfr⟩ := engArithScalar_safe_iter' st op numberTypes t sc left (by simpa using hnum)
+    (by simpa using hk) hdt hsrc hit hnsc hs1 hmt hot hnd hT hS
+  refine ⟨_, _, _, h, rfl, rfl, rfl, rfl, cell_some_cellD (by simpa using hS.has 0 (by omega)), hm, ?_, ?_, hfr⟩
+  · intro i hi
+    have h1 := hot i hi
+    exact ⟨_, cell_some_cellD (hT.has.at h1.1 h1.2), hv i hi⟩
+  · intro m hm1 hne
+    show cell st' st.heap.size m = _
+    rw [hrest m hm1 hne, cell_some_cellD (hT.has m hm1)]
+
 /-! ## 5. iterator path and the link with C05 -/
 
 /-- Safe mode when `a` needs an iterator (view, pending transpose, …): the result is a clone of `a`'s
@@ -664,6 +712,17 @@ example := engMMScalar_scalar_left_iter st6 "minb" tv scv (by decide) rfl rfl (b
 example : ∃ out, engMMScalar st6 "minb" tv scv false {} = .ok out ∧
     cell out.st 2 1 = some (.app2 "minb" (.src 0 2) (.src 1 0)) ∧
     cell out.st 2 2 = some (.app2 "minb" (.src 0 4) (.src 1 0)) := ⟨_, rfl, rfl, rfl⟩
+-- tensor-scalar arithmetic at engine level: raw path (tensor left), and the view with gaps with the scalar on either side
+example := engArithScalar_safe_raw_left st "sub" ta { win := ws, dt := "f64" } (by decide) (by decide) rfl rfl (by decide) rfl
+  (by decide) rfl inA inS
+example := engArithScalar_safe_iter st6 "sub" tv scv true (by decide) (by decide) rfl rfl (by decide) (by decide) rfl rfl
+  (by decide) (by decide) ⟨_, rfl, by decide⟩ ⟨_, rfl, by decide⟩
+example := engArithScalar_safe_iter st6 "sub" tv scv false (by decide) (by decide) rfl rfl (by decide) (by decide) rfl rfl
+  (by decide) (by decide) ⟨_, rfl, by decide⟩ ⟨_, rfl, by decide⟩
+/-- the run: `Sub(3, view)` puts `sub 3 t` (scalar first) at the view's elements 0, 2, 4 of the clone and keeps the gap cell 1 -/
+example : ∃ out, engArithScalar st6 "sub" numberTypes tv scv false {} = .ok out ∧
+    cell out.st 2 0 = some (.app2 "sub" (.src 1 0) (.src 0 0)) ∧ cell out.st 2 1 = some (.src 0 1) ∧
+    cell out.st 2 4 = some (.app2 "sub" (.src 1 0) (.src 0 4)) := ⟨_, rfl, rfl, rfl, rfl⟩
 end Ex
 
 /-! ## the source of the shape test of `binaryCheck` -/
